@@ -1,7 +1,8 @@
 #![no_main]
 //! libFuzzer target (engine E5): bytes = 6 configuration bytes followed by Lua source text.
 //! Every input is formatted (C07: no unwind, classification agrees with the trusted parser, work bound);
-//! for inputs without comments the semantic oracles C01 and C02 are evaluated as well.
+//! for inputs without comments the oracles C01, C02 and C04 are evaluated as well (comments in arbitrary positions are
+//! the diffuse known-failing region, DESIGN 1.2).
 //! A failure aborts with a message starting with `VIOLATION`; panics inside full_moon's parser on text it
 //! does not accept are the known finding KF-C07-fullmoon-parser-panic and are tolerated.
 use libfuzzer_sys::fuzz_target;
@@ -50,7 +51,9 @@ fuzz_target!(|data: &[u8]| {
             let known = d.starts_with("panic:") && oracle::known_panic(&d).is_some() && oracle::parses(src, syn).is_err();
             // formatter work that doubles per nesting level is the known finding KF-C07-exponential-nesting
             let known_work = d.starts_with("work bound");
-            if (!known && !known_work) || strict {
+            // success on text full_moon did not consume in full is the known finding KF-C07-fullmoon-lossy-parse
+            let known_lossy = d.starts_with("success returned for text that the parser did not consume");
+            if (!known && !known_work && !known_lossy) || strict {
                 fail("C07", d);
             }
             return;
@@ -60,6 +63,20 @@ fuzz_target!(|data: &[u8]| {
     let has_comment = src.contains("--") || src.starts_with("#!");
     if has_comment {
         return;
+    }
+    // (a lone CR in front of a CRLF inside a long string is the known finding KF-C04-lone-cr-before-crlf; it changes
+    // a string value, which C02's token sequence sees as well)
+    if oracle::lone_cr_next_to_break(src) && !strict {
+        return;
+    }
+    // the semantic oracles need a trustworthy reading of the input: full_moon's tree must print back to the input and
+    // its token boundaries must be those of the checker's lexer (full_moon accepts e.g. a raw CR inside a quoted string
+    // after `\<BEL>`, which no Lua dialect does)
+    if !oracle::parser_lossless(src, syn) {
+        return;
+    }
+    if let Verdict::Fail(d) = oracle::c04(&case, &out) {
+        fail("C04", d);
     }
     if let Verdict::Fail(d) = oracle::c01(&case, &out) {
         fail("C01", d);
